@@ -1,6 +1,8 @@
 package checker
 
 import (
+	"sort"
+
 	"github.com/jsightapi/jsight-schema-core/bytes"
 	"github.com/jsightapi/jsight-schema-core/errs"
 	"github.com/jsightapi/jsight-schema-core/json"
@@ -34,8 +36,15 @@ func CheckRootSchema(rootSchema *ischema.ISchema) {
 		c.checkNode(rootSchema.RootNode(), rootSchema.TypesList())
 	}
 
-	for name, typ := range rootSchema.TypesList() {
-		c.checkType(name, typ, rootSchema.TypesList())
+	// In name order: the first type that fails decides which error is reported,
+	// and map iteration order differs from run to run.
+	names := make([]string, 0, len(rootSchema.TypesList()))
+	for name := range rootSchema.TypesList() {
+		names = append(names, name)
+	}
+	sort.Strings(names)
+	for _, name := range names {
+		c.checkType(name, rootSchema.TypesList()[name], rootSchema.TypesList())
 	}
 }
 
